@@ -135,6 +135,7 @@ class WSock(FakeSock):
         t = WSock(self.world, tls=True, conn=self.conn)
         self.conn["tls"] = True
         self.conn["authed"] = False
+        self.conn["sasl"] = None        # what was announced before the handshake no longer counts (RFC 5804 2.2)
         t.greet_after_tls()
         return t
 
